@@ -43,6 +43,23 @@ CLAIMED = {
                 "legality could not be pinned down are not generated (DESIGN.md section 8).",
         "technique": "deterministic simulation: differential exchange with an independent codec over a simulated disk",
     },
+    "C04": {
+        "category": "exploration",
+        "text": "Two parties exchange OASIS files through the simulated disk.  Direction 1: an independent encoder (own modal-variable "
+                "bookkeeping; seeded choices: modal reuse per field, XYRELATIVE/XYABSOLUTE switches, every repetition type 0-11 incl. grid "
+                "variants and reuse, all six point-list types, all eight real encodings, RECTANGLE/SQUARE, TRAPEZOID A/B/AB both orientations, "
+                "CTRAPEZOID types, CIRCLE, PLACEMENT 17/18, names inline or by reference number with tables before/after the cells, implicit "
+                "or explicit numbering, PROPERTY value reuse / repeat records / PROPSTRING references, PAD, CBLOCKs around cell bodies, random "
+                "record runs or name tables, offsets in START or END, strict or not, none/CRC32/CHECKSUM32) writes files that read_oas must "
+                "load to exactly the encoded layout.  Direction 2: an independent strict decoder reads every file write_oas produces over "
+                "the 5120 option sets and checks content plus what the file says about itself: END is 256 bytes and last, table offsets, "
+                "validation signature, S_TOP_CELL, S_CELL_OFFSET, S_BOUNDING_BOX (polygon/label hierarchies), S_MAX_* bounds.",
+        "design_ref": "DESIGN.md 5.6",
+        "note": "Trusted: the peer codec, written from memory of SEMI P39 (self-checked: encoder.decoder identity over all choices, decodes "
+                "tests/min_length_path.oas). Constructs that could not be pinned down are not generated: reliance on modal geometry-w/h "
+                "after a record that only implies them (square, CTRAPEZOID 16-23/25). One open known finding (F13) is re-demonstrated on every run.",
+        "technique": "deterministic simulation: differential exchange with an independent OASIS codec over a simulated disk, truth checks on the stored bytes",
+    },
     "C17": {
         "category": "exploration",
         "text": "Sessions that share one stored file and its handles are interleaved by a seeded discrete-event scheduler: loaders (gds_info, "
@@ -91,8 +108,7 @@ NA = {
     "C19": "the number codecs are pure functions over an in-memory stream; end-of-stream inside a number is not part of the property.",
     "C20": "Map/Set/TagMap/StyleMap, property lists and sort are sequential data structures never shared between threads; stateful PBT, not simulation.",
 }
-PENDING = {k: "simulation check under construction in this round (see DESIGN.md section 5); not claimed until it exists"
-           for k in ("C04",)}
+PENDING = {}
 
 def main():
     checks = []
